@@ -977,6 +977,8 @@ class C13(Prop):
         ip, idb = out_of((impl or {}).get("prod")), out_of((impl or {}).get("debug"))
         mp, mdb = out_of((model or {}).get("prod")), out_of((model or {}).get("debug"))
         declined = mp[0] in ("model-domain", "no-model") or mdb[0] in ("model-domain", "no-model")
+        if case.get("manifest"):
+            declined = True   # the module's asset() function and the manifest are not in the executor model: real outputs only
         case["_declined"] = declined
         def same(i, m):
             return i == m if (i[0] == "ok" or m[0] == "ok") else i[0] == m[0]
